@@ -65,13 +65,20 @@ const newTable = "t9"
 
 var probeList []probe
 
-func probes() []probe {
+// probes lists the requests made in every state. The non-administrators are
+// probed on both tables of the restricted DSN; the callers that are not
+// limited (administrator, open DSN) on t1 only in the quick tier.
+func probes(thorough bool) []probe {
 	if probeList != nil {
 		return probeList
 	}
 
 	add := func(user, dsn string) {
 		for _, t := range tables {
+			if !thorough && t != "t1" && (user == "admin" || dsn == dsnO) {
+				continue
+			}
+
 			for _, k := range kinds {
 				probeList = append(probeList, probe{k.kind, user, dsn, t})
 			}
